@@ -154,34 +154,31 @@ func runC10(c *Ctx) {
 				c.Ob("DIRECT-FLAG", "getModuleDepsRec/recursive-call", call.Pos(), ok && tv.Value != nil && tv.Value.ExactString() == "false", true, "the recursive call passes isDirect = %s (want the constant false)", exprString(last))
 			}
 		}
-		// first classification sticks: the store into the dep map is under !ok of a lookup with the same key
+		// first classification sticks: every store of a ModuleDep into a map, in getModuleDepsRec or a helper it calls,
+		// lies on the absent edge of a comma-ok lookup of the same key in the same map (SSA; if/else, guard-continue and
+		// extracted-helper forms alike)
 		okStick := false
-		ast.Inspect(rec.Decl.Body, func(n ast.Node) bool {
-			ifs, ok := n.(*ast.IfStmt)
-			if !ok {
-				return true
-			}
-			as, ok := ifs.Init.(*ast.AssignStmt)
-			if !ok || len(as.Rhs) != 1 {
-				return true
-			}
-			ix, ok := as.Rhs[0].(*ast.IndexExpr)
-			if !ok {
-				return true
-			}
-			ue, ok := ifs.Cond.(*ast.UnaryExpr)
-			if !ok || ue.Op != token.NOT {
-				return true
-			}
-			for _, st := range ifs.Body.List {
-				if a2, ok := st.(*ast.AssignStmt); ok && len(a2.Lhs) == 1 {
-					if ix2, ok := a2.Lhs[0].(*ast.IndexExpr); ok && exprString(ix2.X) == exprString(ix.X) && exprString(ix2.Index) == exprString(ix.Index) && namedName(info.TypeOf(ix2)) == "ModuleDep" {
-						okStick = true
+		if rsf := p.SSAFunc(rec.Obj); rsf != nil {
+			stores, guarded := 0, 0
+			for _, f := range reachSSA(rsf, 2) {
+				if f.Pkg == nil || f.Pkg.Pkg != pk.Types {
+					continue
+				}
+				for _, b := range f.Blocks {
+					for _, ins := range b.Instrs {
+						mu, ok := ins.(*ssa.MapUpdate)
+						if !ok || namedName(mu.Value.Type()) != "ModuleDep" {
+							continue
+						}
+						stores++
+						if storeOnAbsentEdge(mu) {
+							guarded++
+						}
 					}
 				}
 			}
-			return true
-		})
+			okStick = stores > 0 && stores == guarded
+		}
 		c.Ob("DIRECT-FLAG", "getModuleDepsRec/first-classification-sticks", rec.Decl.Pos(), okStick, true, "a dependency is recorded only when absent from the result map (an earlier direct classification is never overwritten): %v", okStick)
 		// (4) WKT exception
 		c10WktNarrow(c, "WKT-NARROW")
